@@ -618,7 +618,7 @@ def run(chk: lib.Check):
         # served.  `judge` is the same rule as in B: first cached ancestor of the requested format IN THE CONFIGURED PLACE,
         # converted forward; else an error, or the fresh rendering if the fallback is on.
         from capellambse.filehandler import memory as fhmemory
-        d_stats = {"renders": 0, "hit": 0, "miss-error": 0, "miss-fallback": 0, "not-a-directory": 0, "models": 0,
+        d_stats = {"seconds_loading_models": 0.0, "seconds_rendering": 0.0, "renders": 0, "hit": 0, "miss-error": 0, "miss-fallback": 0, "not-a-directory": 0, "models": 0,
                    "handler_objects": {}, "location_specs": {}}
         D_FMTS = list(rt_names)
         TAGS = {uu: "A", other: "B"}
@@ -658,7 +658,9 @@ def run(chk: lib.Check):
             all places (configured one included)"""
             for dg in (model.diagrams[ia], model.diagrams[ib]):
                 for fmt in D_FMTS:
+                    t0_ = time.time()
                     res, opened = watched_render(model, dg, fmt)
+                    d_stats["seconds_rendering"] += time.time() - t0_
                     d_stats["renders"] += 1
                     S.sources = {}
                     for lab, fs in everything.items():
@@ -810,7 +812,9 @@ def run(chk: lib.Check):
                     replay = {"diagram_cache": f"an instance of {hk}", "handler_states": repr(seq)}
                     for st in seq:
                         if st == "LOAD":
+                            t0_ = time.time()
                             model = capellambse.MelodyModel(aird, diagram_cache=hobj, fallback_render_aird=allow)
+                            d_stats["seconds_loading_models"] += time.time() - t0_
                             d_stats["models"] += 1
                             continue
                         step += 1
@@ -911,6 +915,7 @@ def run(chk: lib.Check):
                 key = f"location:{label}"
                 replay = {"model_path": repr(mpath), "diagram_cache": repr(spec) if spec is not None else repr(kw["diagram_cache"]),
                           "how": shape, "layout": {k: str(v) for k, v in DIRS.items()}}
+                t0_ = time.time()
                 try:
                     if shape == "modelinfo":
                         model = capellambse.MelodyModel(**kw)
@@ -919,6 +924,7 @@ def run(chk: lib.Check):
                 except Exception as e:  # noqa: BLE001
                     chk.violation(f"{key}:load", f"MelodyModel({mpath!r}, diagram_cache={replay['diagram_cache']}) raises {type(e).__name__}: {e}", replay)
                     continue
+                d_stats["seconds_loading_models"] += time.time() - t0_
                 d_stats["models"] += 1
                 d_stats["location_specs"][shape] = d_stats["location_specs"].get(shape, 0) + 1
                 if same_as_model and pathlib.Path(root).is_file():
@@ -935,6 +941,8 @@ def run(chk: lib.Check):
                     ev = plant_all(hole)
                     judge(model, cfg, ev[cfg], ev, allow, key + (":hole" if hole else ":full"),
                           what + (" (the configured place has no file of diagram A, the other places have)" if hole else ""), replay)
+        d_stats["seconds_loading_models"] = round(d_stats["seconds_loading_models"], 1)
+        d_stats["seconds_rendering"] = round(d_stats["seconds_rendering"], 1)
         chk.coverage["cache_objects_and_locations"] = d_stats
         lap("objects+locations")
         n_render = len(rcases)
